@@ -18,8 +18,10 @@ import (
 //	node  = <name>@<ver>{!<pkg>@<req>}          in NodeID order, errors in the order they were added
 //	edge  = <from>><to>:<req>:<mask>:<k=v+k=v…|->    in the order they were added
 //	entry = <path>:<name>@<ver>#<id>:<flags>:<protected>:<aliasProtected>
-//	        path = slot names from the root joined by `/` (`.` = the root); flags ⊆ "a" (alias slot) "p" (processed),
+//	        path = slot names from the root joined by `/` (`.` = the root); flags ⊆ "a" (alias slot) "b" (bundled) "p" (processed),
 //	        `-` = none; the two sets as sorted indices joined by `+`; entries sorted by (path, alias flag)
+//
+// A fourth field ` X=<name>@<ver>+…` lists Graph.Error's unused bundled versions (sorted index pairs).
 //
 // Node ids and the order of edges and errors are produced deterministically by
 // Resolve (no map iteration is involved) and are compared as they are; what
@@ -115,6 +117,9 @@ func render(t *universe.Table, g *resolve.Graph, tree []npm.VerifTreeEntry) stri
 		} else {
 			key = append(key, 0)
 		}
+		if e.Bundled {
+			flags += "b"
+		}
 		if e.Processed {
 			flags += "p"
 		}
@@ -135,19 +140,41 @@ func render(t *universe.Table, g *resolve.Graph, tree []npm.VerifTreeEntry) stri
 	}
 	s := "ok N=" + joinOr(",", ns) + " E=" + joinOr(",", es) + " T=" + joinOr(",", tl)
 	if g.Error != "" {
-		s += " X=" + fw_hx(g.Error)
+		// Graph.Error lists the unused bundled versions ("unused bundled version <name> <version>",
+		// sorted, comma separated): rendered as index pairs sorted numerically.
+		type pr struct{ n, v int }
+		var ps []pr
+		bad := false
+		for _, m := range strings.Split(g.Error, ",") {
+			m, ok := strings.CutPrefix(m, "unused bundled version ")
+			i := strings.LastIndex(m, " ")
+			if !ok || i < 0 {
+				bad = true
+				continue
+			}
+			n, e1 := strconv.Atoi(t.Ix(m[:i]))
+			v, e2 := strconv.Atoi(t.Ix(m[i+1:]))
+			if e1 != nil || e2 != nil {
+				bad = true
+			}
+			ps = append(ps, pr{n, v})
+		}
+		sort.Slice(ps, func(i, j int) bool {
+			if ps[i].n != ps[j].n {
+				return ps[i].n < ps[j].n
+			}
+			return ps[i].v < ps[j].v
+		})
+		var xs []string
+		for _, p := range ps {
+			xs = append(xs, fmt.Sprintf("%d@%d", p.n, p.v))
+		}
+		if bad {
+			xs = append(xs, "?")
+		}
+		s += " X=" + strings.Join(xs, "+")
 	}
 	return s
-}
-
-func fw_hx(s string) string {
-	const hexd = "0123456789abcdef"
-	var b strings.Builder
-	for i := 0; i < len(s); i++ {
-		b.WriteByte(hexd[s[i]>>4])
-		b.WriteByte(hexd[s[i]&15])
-	}
-	return b.String()
 }
 
 // ---- parsing a result line back (oracles work on op line + result line only)
